@@ -312,12 +312,23 @@ func (c *Ctx) callEffects(ins ssa.CallInstruction, l *Loop, top bool, seen map[*
 	if len(fn.Blocks) > 0 && depth < 8 && !seen[fn] {
 		if li := c.loopInfo(fn); len(li.loops) == 0 {
 			seen[fn] = true
+			// effects of the inlined body, with write bases translated back to the caller's argument values
+			sub := &Loop{Head: l.Head, Body: l.Body, ModCells: map[*ssa.Alloc]bool{}, ModComps: map[string]string{}, Writers: map[string][]ssa.Value{}}
 			for _, b := range fn.Blocks {
 				for _, i2 := range b.Instrs {
-					c.effects(i2, l, false, seen, depth+1)
+					c.effects(i2, sub, false, seen, depth+1)
 				}
 			}
 			delete(seen, fn)
+			if sub.ModAll {
+				l.ModAll = true
+				l.Reasons = append(l.Reasons, sub.Reasons...)
+			}
+			for n, srt := range sub.ModComps {
+				for _, w := range sub.Writers[n] {
+					c.addComp(l, n, srt, calleeBaseToArg(w, fn, cc))
+				}
+			}
 			return
 		}
 	}
@@ -771,4 +782,54 @@ func (c *Ctx) onlySelfAppends(a *ssa.Alloc, l *Loop) bool {
 		}
 	}
 	return true
+}
+
+// calleeBaseToArg maps a write base inside an inlined callee (a parameter, or a load of the local that holds a
+// parameter) to the corresponding argument value at the call site; nil if it is anything else.
+func calleeBaseToArg(w ssa.Value, fn *ssa.Function, cc *ssa.CallCommon) ssa.Value {
+	if w == nil {
+		return nil
+	}
+	argOf := func(p *ssa.Parameter) ssa.Value {
+		for i, q := range fn.Params {
+			if q == p {
+				if cc.IsInvoke() {
+					return nil
+				}
+				if i < len(cc.Args) {
+					return cc.Args[i]
+				}
+			}
+		}
+		return nil
+	}
+	switch v := w.(type) {
+	case *ssa.Parameter:
+		return argOf(v)
+	case *ssa.UnOp:
+		if a, ok := v.X.(*ssa.Alloc); ok && !a.Heap {
+			// the local must be assigned exactly once, from a parameter
+			var src *ssa.Parameter
+			n := 0
+			for _, b := range fn.Blocks {
+				for _, ins := range b.Instrs {
+					if st, ok := ins.(*ssa.Store); ok && st.Addr == a {
+						n++
+						if p, ok := st.Val.(*ssa.Parameter); ok {
+							src = p
+						}
+					}
+				}
+			}
+			if n == 1 && src != nil {
+				return argOf(src)
+			}
+		}
+	case *ssa.Alloc, *ssa.MakeSlice, *ssa.MakeMap:
+		// storage allocated inside the callee: fresh per call. Returning the value itself makes
+		// invariantRef treat it as "defined in the loop" only if its block is in the loop body; it is not,
+		// so give up precision here.
+		return nil
+	}
+	return nil
 }
